@@ -58,6 +58,10 @@ def finding_key(req, obs, detail):
                 return "src rejected-by-parser enum a { a = ( a , a ) } ;"
             if re.search(r"\w+ (?:\[ \S+ \] )?(?:: \w+ )?= \( \S+ , \S+ \) [,)]", key) and "rejected-by-parser" in key:
                 return "src rejected-by-parser a a ( a a = ( a , a ) ) { }"
+        # definition stream: a default argument that is a comma expression is the same printer defect as the source-stream
+        # class above (printed bare with format_expression, `float p = y, 36`, read with parse_expression_no_seq)
+        if key.startswith("def rejected-by-parser ") and re.search(r"\(param [^\n]*\(def \(bin Sequence ", key):
+            return "src rejected-by-parser a a ( a a = ( a , a ) ) { }"
         # source stream: a declarator whose array size is a parenthesised comma expression (one class, whatever
         # statement the 1-minimal program wraps around it)
         if key.startswith("src rejected-by-parser ") and re.search(r"(?:\ba|>|,) a \[ \( \w+ , \w+ \) \]", key):
